@@ -1,48 +1,6 @@
 import PyRt.Basic
 import PyRt.Str
-/-! TEMPORARY ASCII-only stand-ins (replaced by PyRt.Unicode / PyRt.Int / PyRt.Strip) -/
-namespace Py
-def isWs (c : Nat) : Bool :=
-  c == 32 || (decide (9 ≤ c) && decide (c ≤ 13)) || (decide (28 ≤ c) && decide (c ≤ 31)) || c == 0x85 || c == 0xa0 ||
-  c == 0x1680 || (decide (0x2000 ≤ c) && decide (c ≤ 0x200a)) || c == 0x2028 || c == 0x2029 || c == 0x202f || c == 0x205f || c == 0x3000
-def lstrip (x : Str) : Str := x.dropWhile isWs
-def rstrip (x : Str) : Str := (x.reverse.dropWhile isWs).reverse
-def strip (x : Str) : Str := rstrip (lstrip x)
-def lstripChars (x cs : Str) : Str := x.dropWhile (cs.contains ·)
-def rstripChars (x cs : Str) : Str := (x.reverse.dropWhile (cs.contains ·)).reverse
-def stripChars (x cs : Str) : Str := rstripChars (lstripChars x cs) cs
-def upper (x : Str) : Str := x.map (fun c => if 97 ≤ c ∧ c ≤ 122 then c - 32 else c)
-def lower (x : Str) : Str := x.map (fun c => if 65 ≤ c ∧ c ≤ 90 then c + 32 else c)
-def isdigit (x : Str) : Bool := !x.isEmpty && x.all isAsciiDigit
-def isalpha (x : Str) : Bool := !x.isEmpty && x.all isAsciiAlpha
-def isalnum (x : Str) : Bool := !x.isEmpty && x.all isAsciiAlnum
-def intOf (x : Str) : R Int :=
-  let t := strip x
-  let (neg, t) := match t with | 45 :: r => (true, r) | 43 :: r => (false, r) | r => (false, r)
-  if !t.isEmpty && t.all isAsciiDigit then
-    let v := t.foldl (fun acc c => acc * 10 + ((c - 48 : Nat) : Int)) (0 : Int)
-    .ok (if neg then -v else v)
-  else raise .valueError
-def digitVal36 (c : Nat) : Option Nat :=
-  if isAsciiDigit c then some (c - 48) else if isAsciiUpper c then some (c - 55) else if isAsciiLower c then some (c - 87) else none
-def intOfBase (x : Str) (base : Nat) : R Int :=
-  let t := strip x
-  let (neg, t) := match t with | 45 :: r => (true, r) | 43 :: r => (false, r) | r => (false, r)
-  if t.isEmpty then raise .valueError else
-  match t.mapM (fun c => match digitVal36 c with | some v => if v < base then some v else none | none => none) with
-  | some ds => let v := ds.foldl (fun (acc : Int) (d : Nat) => acc * (base : Int) + (d : Int)) (0 : Int); .ok (if neg then -v else v)
-  | none => raise .valueError
-def strOfNat (n : Nat) : Str := (Nat.toDigits 10 n).map Char.toNat
-def strOfInt (n : Int) : Str := if n < 0 then 45 :: strOfNat n.natAbs else strOfNat n.natAbs
-def pymod (a b : Int) : R Int := if b == 0 then raise .zeroDivision else .ok (Int.fmod a b)
-def pyfloordiv (a b : Int) : R Int := if b == 0 then raise .zeroDivision else .ok (Int.fdiv a b)
-def pydivmod (a b : Int) : R (Int × Int) := if b == 0 then raise .zeroDivision else .ok (Int.fdiv a b, Int.fmod a b)
-def fmtD (width : Nat) (zero : Bool) (n : Int) : Str :=
-  let body := strOfNat n.natAbs
-  let sign : Str := if n < 0 then [45] else []
-  let padn := width - (body.length + sign.length)
-  if zero then sign ++ List.replicate padn 48 ++ body else List.replicate padn 32 ++ sign ++ body
-end Py
+/-! TEMPORARY mini regex (until PyRt.Regex is integrated) -/
 namespace Py.Re
 /-- TEMPORARY mini regex: only the two isdigits patterns -/
 inductive Regex | digitsDollar | digitsZ
@@ -57,13 +15,3 @@ def match_ (r : Regex) (s : Py.Str) : Option Match :=
   if !core.isEmpty && core.all Py.isAsciiDigit then some {} else none
 def search := match_
 end Py.Re
-namespace Py
-def hexDigit (d : Nat) (upper : Bool) : Nat := if d < 10 then 48 + d else (if upper then 55 else 87) + d
-def toHex (n : Nat) (upper : Bool) : Str := ((Nat.toDigits 16 n).map (fun c => let v := c.toNat; if upper && 97 ≤ v && v ≤ 102 then v - 32 else v))
-def fmtX (width : Nat) (zero : Bool) (upper : Bool) (n : Int) : R Str :=
-  let body := toHex n.natAbs upper
-  let sign : Str := if n < 0 then [45] else []
-  let padn := width - (body.length + sign.length)
-  .ok (if zero then sign ++ List.replicate padn 48 ++ body else List.replicate padn 32 ++ sign ++ body)
-def intBitLength (n : Int) : Int := if n == 0 then 0 else (Nat.log2 n.natAbs + 1 : Nat)
-end Py
